@@ -34,6 +34,10 @@ from pynenc.trigger.conditions import (
 from pynenc.trigger.trigger_definitions import TriggerDefinition
 from pynenc.trigger.trigger_context import TriggerContext
 
+#: Default of ``store_last_cron_execution(expected_last_execution=...)``: store without comparing.
+#: ``None`` is a real expectation ("never executed yet") and must be compared like any other value.
+UNCONDITIONAL: Any = object()
+
 if TYPE_CHECKING:
     from pynenc.app import Pynenc
     from pynenc.invocation.base_invocation import BaseInvocation, InvocationId
@@ -473,7 +477,7 @@ class BaseTrigger(ABC):
         self,
         condition_id: "ConditionId",
         execution_time: datetime,
-        expected_last_execution: datetime | None = None,
+        expected_last_execution: "datetime | None | object" = UNCONDITIONAL,
     ) -> bool:
         """
         Store the timestamp of the last execution of a cron condition in persistent storage.
@@ -483,7 +487,9 @@ class BaseTrigger(ABC):
 
         :param str condition_id: ID of the cron condition
         :param datetime execution_time: Timestamp of the execution (must be UTC timezone-aware)
-        :param datetime | None expected_last_execution: Expected current value for optimistic locking (UTC timezone-aware)
+        :param datetime | None expected_last_execution: Expected current value for optimistic locking
+            (UTC timezone-aware); ``None`` means "expected to have never executed". When omitted
+            (``UNCONDITIONAL``) the value is stored without any check.
         :return: True if stored successfully, False if another process already updated it
         """
         pass
